@@ -636,7 +636,11 @@ func (cr *caseRun) execStep(idx int, s step) {
 			writeFailed = (n.Sent - n.SentOK) > (beforeW.Sent - beforeW.SentOK)
 			return count(stored).Applied > beforeStored || writeFailed
 		}) {
-			cr.fail("watchdog: torrent did not complete")
+			st, _ := cr.L.TorrentState(cr.blobs[s.B].InfoHash())
+			nc := -1
+			cr.L.Sched.VerifC17Inspect(func(v scheduler.VerifC17View) { nc = v.NumConns(cr.blobs[s.B].InfoHash()) })
+			cr.fail(fmt.Sprintf("watchdog: torrent did not complete (present=%v complete=%v waiters=%d conns=%d writes=%+v)",
+				st.Present, st.Complete, st.Waiters, nc, cr.wgate.Count(wname)))
 			return
 		}
 		if writeFailed && cr.wgate.Count(stored).Applied == beforeStored {
@@ -790,7 +794,12 @@ func (cr *caseRun) awaitLoop(done <-chan struct{}, where string) bool {
 				default:
 				}
 				if _, p := parkedInDownload(dump, c); !p {
-					allParked = false
+					// Also unable to receive: parked at the harness gate, or waiting in
+					// eventLoop.send for the very loop that is blocked.
+					g, ok := dump[c.gid.Load()]
+					if !(ok && (g.In("schedrig.(*Gate).Enter") || (g.State == "select" && g.In("baseEventLoop).send")))) {
+						allParked = false
+					}
 				}
 			}
 			select {
@@ -864,6 +873,10 @@ func classify(err error) string {
 func (cr *caseRun) teardown() {
 	cr.gate.ReleaseAll()
 	cr.wgate.ReleaseAll()
+	if !cr.stopStarted && !cr.wedged {
+		// Never call Stop unguarded: with a blocked event loop it would hang the run.
+		cr.doStop()
+	}
 	if cr.stopStarted || cr.wedged {
 		// Either stopped by the case, or the loop is wedged (reported): only the store is left to close.
 		cr.L.CloseStoreOnly()
